@@ -22,7 +22,7 @@ ASSUMPTIONS = ["mujoco.mj_getState/mj_stateSize are the reference", "float32 rou
 EXHAUSTIVE = {"quick": True, "thorough": True}
 ENUM_ONLY = True
 CRASH_IS_VIOLATION = True
-BUDGET = {"quick": dict(examples=1, seconds=200, workers=16), "thorough": dict(examples=1, seconds=1500, workers=16)}
+BUDGET = {"quick": dict(examples=1, seconds=420, workers=16), "thorough": dict(examples=1, seconds=1500, workers=16)}
 _FIELDS = ["time", "qpos", "qvel", "act", "history", "qacc_warmstart", "ctrl", "qfrc_applied", "xfrc_applied", "eq_active", "mocap_pos", "mocap_quat", "userdata"]
 CHUNK = 128
 
